@@ -80,8 +80,9 @@ def write_evidence(prop, profile, tier, seed, results, wall, violations, extra=N
             if isinstance(v, (str, int, bool)):
                 knobs["%s=%s" % (k, v)] += 1
         knobs["hash_seed=%s" % r.get("hash_seed")] += 1
-        if len(samples) < 4 and r.get("samples"):
-            samples.append({"seed": r["seed"], "steps": r["steps"][:6], "detail": r["samples"][:2]})
+        if len(samples) < 4 and r.get("steps"):
+            samples.append({"seed": r["seed"], "params": r.get("params"), "steps": r["steps"][:8],
+                            "detail": (r.get("samples") or [])[:2]})
     runs = sum(1 for r in results if "stats" in r)
     evaluations = profile.evaluations(stats, runs)
     cov = {
@@ -147,11 +148,27 @@ def cmd_check(args):
         results = O.batch(pool, profile.name, seeds, tier, budget, on_result=on_result,
                           stop_on_violation=bool(args.stop_first or args.mutant_mode),
                           max_bad=cfg.get("max_bad", 6), bad=bad)
+        if hasattr(profile, "sweep") and not args.no_sweep:
+            from .model import Model
+            spec = pool.call({"cmd": "spec"}, 0)["spec"]
+            cases = list(profile.sweep(Model(spec), tier))
+            replays = {i: c for i, c in enumerate(cases)}
+            left = max(10.0, budget - (time.time() - t0)) if tier == "quick" else budget
+            sres = O.batch(pool, profile.name, list(replays), tier, left, on_result=on_result,
+                           stop_on_violation=bool(args.stop_first or args.mutant_mode), replays=replays,
+                           max_bad=cfg.get("max_bad", 6), bad=bad)
+            sweep_info = {"bounded_sweep": {"sequences": len(cases), "executed": len(sres),
+                                            "complete": len(sres) == len(cases)}}
+            results = results + sres
+        else:
+            sweep_info = None
         herr = [r for r in results if r.get("harness_error")]
         if herr:
             print("HARNESS-ERROR: " + str(herr[0]["harness_error"])[:2000])
             rc = 2
         extra = profile.post_batch(pool, results, tier) if hasattr(profile, "post_batch") else None
+        if sweep_info:
+            extra = dict(extra or {}, **sweep_info)
         if extra and extra.get("violations"):
             bad.extend(extra.pop("violations"))
         # group violations by oracle, minimise one of each
@@ -236,6 +253,7 @@ def main(argv=None):
     c.add_argument("--workers", type=int)
     c.add_argument("--no-minimise", action="store_true")
     c.add_argument("--stop-first", action="store_true")
+    c.add_argument("--no-sweep", action="store_true")
     c.add_argument("--mutant-mode", action="store_true", help="scratch copy under test: no evidence, no replay files, stop at the first violation")
     r = sub.add_parser("replay")
     r.add_argument("file")
